@@ -10,7 +10,7 @@
     Executable definitions only. *)
 From Coq Require Import ZArith List Bool String.
 Import ListNotations.
-Open Scope Z_scope.
+Local Open Scope Z_scope.
 
 Inductive tc_status := TPass | TSkip | TFail.
 
